@@ -2,22 +2,22 @@
 namespace {
 #if VF_GROUP == 0
 VF_BUCKET_HUGE(uint32_t, 4, 128, 32, float);
-VF_BUCKET(uint32_t, 4, 128, 32, float);
+VF_BUCKET(uint32_t, 5, 128, 32, float);
 VF_BUCKET(uint64_t, 1, 4096, 0, float);
 #endif
 #if VF_GROUP == 1
 VF_BUCKET_ENUM(uint64_t, 1, 4, 0, float);
 VF_BUCKET_ENUM(uint32_t, 2, 7, 32, float);
-VF_BUCKET(uint16_t, 8, 16, 16, float);
+VF_BUCKET(uint16_t, 6, 16, 16, float);
 VF_BUCKET(uint8_t, 4, 3, 8, float);
 #endif
 #if VF_GROUP == 2
 VF_BUCKET(uint32_t, 8, 550, 0, double);
-VF_BUCKET(uint64_t, 128, 7, 32, float);
+VF_BUCKET(uint64_t, 100, 7, 32, float);
 #endif
 #if VF_GROUP == 3
 VF_BUCKET_BIG(uint64_t, 1, 4095, 0, float);
-VF_BUCKET(uint64_t, 4, 2, 8, float);
+VF_BUCKET(uint64_t, 3, 2, 8, float);
 VF_BUCKET(uint32_t, 1, 4095, 16, float);
 #endif
 #if VF_GROUP == 4
@@ -27,7 +27,7 @@ VF_BUCKET(uint8_t, 1, 128, 0, float);
 #endif
 #if VF_GROUP == 5
 VF_BUCKET(uint32_t, 128, 512, 32, float);
-VF_BUCKET(uint64_t, 8, 100, 16, double);
+VF_BUCKET(uint64_t, 12, 100, 16, double);
 #endif
 #if VF_GROUP == 6
 VF_BUCKET(uint32_t, 4, 512, 32, float);
